@@ -320,18 +320,41 @@ Qed.
 
 Definition checked_vector (cfg : config) : Prop := hash cfg = HChecked /\ placement cfg = PVector.
 
-Lemma ctor_unregistered : forall cfg st a,
-  checked_vector cfg -> reachable cfg st -> ~ In (a_dyn a) (classes st) ->
+(** the hypothesis on the state is only that the checked hash was built for the
+    compiled classes: nothing is assumed about the static v-table pointer
+    variables, vptrs or indirect_vptrs (stale contents included) *)
+Lemma ctor_unregistered_any_state : forall cfg st a,
+  checked_vector cfg -> control st = classes st -> ~ In (a_dyn a) (classes st) ->
   ctor cfg st a = ([AHash (a_dyn a)], Error (UnknownClass (a_dyn a))).
 Proof.
-  intros [h p i] st a [Hh Hp] Hr Hnin. cbn in Hh, Hp. subst h p.
-  destruct (reachable_installed _ st Hr) as [_ Hctl].
+  intros [h p i] st a [Hh Hp] Hctl Hnin. cbn in Hh, Hp. subst h p.
   assert (Hm : mem (a_dyn a) (control st) = false).
-  { rewrite (Hctl eq_refl eq_refl). apply mem_not_In. exact Hnin. }
+  { rewrite Hctl. apply mem_not_In. exact Hnin. }
   unfold ctor, ctor_with.
   assert (Hids : ctor_ids TConstRef a = (a_stat a, a_dyn a)) by (unfold ctor_ids; reflexivity).
   rewrite Hids.
   destruct (N.eqb (a_dyn a) (a_stat a)); destruct i; unfold_m; cbn; rewrite Hm; reflexivity.
+Qed.
+
+Lemma reachable_control : forall cfg st, checked_vector cfg -> reachable cfg st -> control st = classes st.
+Proof.
+  intros cfg st [Hh Hp] Hr. destruct (reachable_installed cfg st Hr) as [_ Hctl].
+  apply Hctl; [exact Hp|]. unfold has_hash. rewrite Hh. reflexivity.
+Qed.
+
+Lemma ctor_unregistered : forall cfg st a,
+  checked_vector cfg -> reachable cfg st -> ~ In (a_dyn a) (classes st) ->
+  ctor cfg st a = ([AHash (a_dyn a)], Error (UnknownClass (a_dyn a))).
+Proof.
+  intros cfg st a Hc Hr Hn. exact (ctor_unregistered_any_state cfg st a Hc (reachable_control cfg st Hc Hr) Hn).
+Qed.
+
+Lemma ctor_unregistered_any_static : forall cfg st a f,
+  checked_vector cfg -> reachable cfg st -> ~ In (a_dyn a) (classes st) ->
+  ctor cfg (with_svp st f) a = ([AHash (a_dyn a)], Error (UnknownClass (a_dyn a))).
+Proof.
+  intros cfg st a f Hc Hr Hn.
+  exact (ctor_unregistered_any_state cfg (with_svp st f) a Hc (reachable_control cfg st Hc Hr) Hn).
 Qed.
 
 Lemma final_wrong_type : forall cfg st a,
@@ -345,18 +368,32 @@ Proof.
   unfold static_ref, bind, tell, ret, fail. cbn. reflexivity.
 Qed.
 
-Lemma final_unregistered : forall cfg st a,
-  checked_vector cfg -> reachable cfg st -> a_dyn a = a_stat a -> ~ In (a_dyn a) (classes st) ->
+Lemma final_unregistered_any_state : forall cfg st a,
+  checked_vector cfg -> control st = classes st -> a_dyn a = a_stat a -> ~ In (a_dyn a) (classes st) ->
   final_ cfg st a = ([ASvp (a_stat a); AHash (a_stat a)], Error (UnknownClass (a_stat a))).
 Proof.
-  intros [h p i] st a [Hh Hp] Hr Heq Hnin. cbn in Hh, Hp. subst h p.
-  destruct (reachable_installed _ st Hr) as [_ Hctl].
+  intros [h p i] st a [Hh Hp] Hctl Heq Hnin. cbn in Hh, Hp. subst h p.
   assert (Hm : mem (a_stat a) (control st) = false).
-  { rewrite (Hctl eq_refl eq_refl). apply mem_not_In. rewrite <- Heq. exact Hnin. }
+  { rewrite Hctl. apply mem_not_In. rewrite <- Heq. exact Hnin. }
   unfold final_, final_with.
   assert (Hids : final_ids TConstRef a = (a_stat a, a_dyn a)) by (unfold final_ids; reflexivity).
   rewrite Hids. rewrite Heq, N.eqb_refl.
   destruct i; unfold_m; cbn; rewrite Hm; reflexivity.
+Qed.
+
+Lemma final_unregistered : forall cfg st a,
+  checked_vector cfg -> reachable cfg st -> a_dyn a = a_stat a -> ~ In (a_dyn a) (classes st) ->
+  final_ cfg st a = ([ASvp (a_stat a); AHash (a_stat a)], Error (UnknownClass (a_stat a))).
+Proof.
+  intros cfg st a Hc Hr He Hn. exact (final_unregistered_any_state cfg st a Hc (reachable_control cfg st Hc Hr) He Hn).
+Qed.
+
+Lemma final_unregistered_any_static : forall cfg st a f,
+  checked_vector cfg -> reachable cfg st -> a_dyn a = a_stat a -> ~ In (a_dyn a) (classes st) ->
+  final_ cfg (with_svp st f) a = ([ASvp (a_stat a); AHash (a_stat a)], Error (UnknownClass (a_stat a))).
+Proof.
+  intros cfg st a f Hc Hr He Hn.
+  exact (final_unregistered_any_state cfg (with_svp st f) a Hc (reachable_control cfg st Hc Hr) He Hn).
 Qed.
 
 Lemma make_virtual_shared_unregistered : forall cfg st o c ctrl box,
@@ -382,3 +419,37 @@ Qed.
 (** no v-table pointer lookup structure is read when an error is reported *)
 Definition is_lookup (a : access) : bool :=
   match a with AVptrs _ | AIvptrs _ => true | _ => false end.
+
+(** ** A class that was registered, seen by an update, then unregistered *)
+
+Lemma svp_update_other : forall cfg rs st c, ~ In c rs -> svp (update cfg rs st) c = svp st c.
+Proof.
+  intros cfg rs st c Hn. unfold update, publish.
+  destruct (placement cfg); cbn [svp]; rewrite set_all_spec, (mem_not_In _ _ Hn); reflexivity.
+Qed.
+
+Lemma svp_update_in : forall cfg rs st c, In c rs -> svp (update cfg rs st) c = Some (c, S (epoch st)).
+Proof.
+  intros cfg rs st c Hin. apply mem_In in Hin. unfold update, publish.
+  destruct (placement cfg); cbn [svp]; rewrite set_all_spec, Hin; reflexivity.
+Qed.
+
+(** after update(rs1) ; update(rs2) with c in rs1 and not in rs2: the static
+    v-table pointer of c is NOT null - it still holds the table of the first
+    update - and c is diagnosed on the exact-type constructor route and in final *)
+Lemma unregistered_after_registered : forall cfg rs1 rs2 st0 a,
+  checked_vector cfg -> reachable cfg st0 -> In (a_dyn a) rs1 -> ~ In (a_dyn a) rs2 ->
+  let st := update cfg rs2 (update cfg rs1 st0) in
+  svp st (a_dyn a) = Some (a_dyn a, S (epoch st0)) /\
+  ctor cfg st a = ([AHash (a_dyn a)], Error (UnknownClass (a_dyn a))) /\
+  (a_dyn a = a_stat a ->
+   final_ cfg st a = ([ASvp (a_stat a); AHash (a_stat a)], Error (UnknownClass (a_stat a)))).
+Proof.
+  intros cfg rs1 rs2 st0 a Hc Hr Hin Hnin st.
+  assert (Hr2 : reachable cfg st) by (apply reach_update, reach_update; exact Hr).
+  assert (Hcl : classes st = rs2) by (destruct (update_fields cfg rs2 (update cfg rs1 st0)) as [_ H]; exact H).
+  split; [|split].
+  - unfold st. rewrite (svp_update_other cfg rs2 _ _ Hnin). apply svp_update_in. exact Hin.
+  - apply ctor_unregistered; [exact Hc | exact Hr2 | rewrite Hcl; exact Hnin].
+  - intros He. apply final_unregistered; [exact Hc | exact Hr2 | exact He | rewrite Hcl; exact Hnin].
+Qed.
